@@ -1862,6 +1862,16 @@ func (vc *VC) panicConds() []Term {
 	return out
 }
 
+// exemptReturn: the contract declares return k unreachable under its precondition (`unreachable "ret k"`).
+func (vc *VC) exemptReturn(k int) bool {
+	for _, c := range vc.decl.Clauses {
+		if c.Kind == "unreachable" && c.Label == fmt.Sprintf("ret %d", k) {
+			return true
+		}
+	}
+	return false
+}
+
 func isFloat32(t types.Type) bool {
 	b, ok := t.Underlying().(*types.Basic)
 	return ok && b.Kind() == types.Float32
@@ -1944,6 +1954,11 @@ func (vc *VC) ret(x *ssa.Return) {
 	ctx := vc.ctx(vc.cur, vc.entry)
 	ctx.bindResults(rs)
 	vc.retReach = append(vc.retReach, vc.curReach)
+	// vacuity: every return must be reachable under the precondition and everything assumed on the way (an
+	// unreachable return makes its postconditions hold vacuously); `unreachable "ret k"` in a contract exempts one
+	if !vc.exemptReturn(k) {
+		vc.oblige("cover", fmt.Sprintf("return-%d-reachable", k), "false", x.Pos()).Expect = "fail"
+	}
 	for i, c := range vc.decl.Clauses {
 		if c.Kind == "panics" {
 			// the function returns only when the declared panic condition does not hold: it panics exactly then
